@@ -765,6 +765,96 @@ func twiceScenario() *vrt.Scenario {
 		}}
 }
 
+// ---- scenario 5: destroy requested while the environment is still being created -----------------
+
+// The environment is listed (and can be named in a destroy request) from the moment its workflow is loaded, long
+// before NewEnvironment returns. Timing instead of deviations: launches take a virtual second to report TASK_RUNNING
+// (DEPLOY lasts from 0 to 1 s), a before_CONFIGURE plugin call takes another second (1 s to 2 s), CONFIGURE follows;
+// the destroy request arrives at 0.5 s (state STANDBY, DEPLOY in progress) or at 1.5 s (DEPLOYED, CONFIGURE in progress).
+func destroyWhileCreatingScenario() *vrt.Scenario {
+	var w *coresim.World
+	var f facts
+	var desc string
+	var createErr, destroyErr error
+	var found, done bool
+	return &vrt.Scenario{Name: "destroy-while-creating", Prop: "C06", Doc: "DestroyEnvironment for an environment whose NewEnvironment request is still in its DEPLOY / CONFIGURE transition (plain / force / keepTasks)", Cfg: cfg,
+		Setup: coresim.ResetStore, Quick: vrt.Bounds{Dev: 0, Seconds: 100}, Thorough: vrt.Bounds{Dev: 1, Seconds: 500},
+		DeadlockClause: "destroy-or-create-hangs", PanicClause: "panic",
+		NonTrivial: func(*vrt.Exec) bool { return found && done },
+		Body: func() {
+			f, createErr, destroyErr, found, done = facts{}, nil, nil, false, false
+			for k := range coresim.CallDelay {
+				delete(coresim.CallDelay, k)
+			}
+			coresim.CallDelay["slowcfg"] = time.Second
+			at := []time.Duration{500 * time.Millisecond, 1500 * time.Millisecond}[vrt.ChooseFree(2, "destroy-arrives")]
+			fl := []struct {
+				name        string
+				force, keep bool
+			}{{"plain", false, false}, {"force", true, false}, {"keepTasks", false, true}}[vrt.ChooseFree(3, "flags")]
+			m := coresim.NewMaster(agents()...)
+			m.Behaviour = func(t *coresim.SimTask, kind string) coresim.Outcome {
+				if kind == "launch" {
+					return coresim.SlowLaunch
+				}
+				return coresim.OK
+			}
+			w = coresim.NewWorld(m)
+			f.keepTasks = fl.keep
+			var wg vrt.WaitGroup
+			wg.Add(2)
+			var createState, seenState string
+			vrt.GoFG("creator", func() {
+				_, createState, createErr = w.Create("c06-slowcfg", nil)
+				wg.Done()
+			})
+			vrt.GoFG("destroyer", func() {
+				vrt.Sleep(at)
+				for id, st := range w.Envs() {
+					f.envID, seenState, found = id, st, true
+				}
+				if found {
+					destroyErr = w.Destroy(f.envID, fl.force, true, fl.keep)
+				}
+				wg.Done()
+			})
+			wg.Wait()
+			done = true
+			vrt.Quiesce("after-both")
+			vrt.Sleep(3 * time.Second)
+			vrt.Quiesce("after-both2")
+			desc = fmt.Sprintf("destroy at %v (listed as %s) flags=%s -> destroy err=%v | create state=%s err=%v", at, seenState, fl.name, destroyErr, createState, createErr != nil)
+			vrt.Logf("%s", desc)
+		},
+		Check: func(x *vrt.Exec) (out []vrt.Violation) {
+			delete(coresim.CallDelay, "slowcfg")
+			if x.Deadlock != "" || !found || !done {
+				return nil
+			}
+			_, listed := w.Envs()[f.envID]
+			switch {
+			case destroyErr == nil:
+				// the destroy was honoured: everything the statement promises after a destroy
+				for _, v := range leftovers(w, f, desc) {
+					v.Clause += ":destroyed-while-being-created"
+					out = append(out, v)
+				}
+			case createErr != nil:
+				// the destroy was refused and the creation failed (on its own or because of the attempt): nothing may be left
+				for _, v := range leftovers(w, facts{envID: f.envID, rpcErr: createErr}, desc) {
+					v.Clause += ":creation-failed-while-destroy-was-refused"
+					out = append(out, v)
+				}
+			case !listed:
+				out = append(out, vrt.Violation{Clause: "environment-gone-although-destroy-was-refused-and-creation-succeeded", Detail: desc})
+			}
+			if l := leakedCalls(x); len(l) > 0 {
+				out = append(out, vrt.Violation{Clause: "pending-call-not-cancelled:destroyed-while-being-created", Detail: fmt.Sprintf("%v; %s", l, desc)})
+			}
+			return
+		}}
+}
+
 func leakedCalls(x *vrt.Exec) (out []string) {
 	for _, l := range x.Leaked {
 		if strings.Contains(l, "callable/call.go") {
@@ -799,6 +889,7 @@ func main() {
 		{Name: "c06-mismatch", Hosts: []string{"hostA"}, Tasks: []coresim.TaskSpec{{Name: "tm", Class: "c06m", Mode: "direct", Critical: true, Host: "hostA"}}},
 		{Name: "c06-tmplerr", Hosts: []string{"hostA"}, Tasks: []coresim.TaskSpec{{Name: "te-{{ undefined_function_xyz() }}", Class: "c06a", Mode: "direct", Critical: true, Host: "hostA"}}},
 		{Name: "c06-hooks0", Hosts: []string{"hostA"}, Tasks: two, Calls: []string{callRole("pend", "pending", "before_START_ACTIVITY", "after_NEVERHAPPENS")}},
+		{Name: "c06-slowcfg", Hosts: []string{"hostA"}, Tasks: two, Calls: []string{callRole("slowcfg", "slowcfg", "before_CONFIGURE", "")}},
 		{Name: "c06-hooks1", Hosts: []string{"hostA"}, Tasks: append(append([]coresim.TaskSpec{}, two...), hook(1, "DESTROY")), Calls: []string{callRole("d0", "d0", "DESTROY", "")}},
 		{Name: "c06-hooks2", Hosts: []string{"hostA"}, Tasks: append(append([]coresim.TaskSpec{}, two...), hook(1, "DESTROY-1"), hook(2, "after_DESTROY+1")), Calls: []string{callRole("d1", "d1", "after_DESTROY", "")}},
 		{Name: "c06-hooks3", Hosts: []string{"hostA"}, Tasks: append(append([]coresim.TaskSpec{}, two...), hook(1, "DESTROY-5"), hook(2, "DESTROY+0"), hook(3, "DESTROY+5")), Calls: []string{callRole("pend", "pending", "before_CONFIGURE", "after_NEVERHAPPENS")}},
@@ -806,5 +897,5 @@ func main() {
 	coresim.GlobalSetup(specs...)
 	coresim.BreakFixture()
 	vrt.Main([]*vrt.Scenario{destroyScenario(), createScenario(), hooksScenario("destroy-hooks", false, vrt.Bounds{Dev: 1, Seconds: 100}, vrt.Bounds{Dev: 2, Seconds: 500}),
-		hooksScenario("destroy-hooks-dead", true, vrt.Bounds{Dev: 0, Seconds: 100}, vrt.Bounds{Dev: 1, Seconds: 500}), twiceScenario(), hookFaultsScenario()})
+		hooksScenario("destroy-hooks-dead", true, vrt.Bounds{Dev: 0, Seconds: 100}, vrt.Bounds{Dev: 1, Seconds: 500}), twiceScenario(), hookFaultsScenario(), destroyWhileCreatingScenario()})
 }
